@@ -320,6 +320,7 @@ Proof.
   destruct (is_hevc_key_seq_header m).
   { destruct (is_ext_header m); intros H; injection H as <- <-; (split; [|constructor]); (apply st_wf_set_spspps; [exact Hw|]);
       apply res_to_opt_ok; intros b; [now apply hevc_enhanced2annexb_ok|now apply hevc_seq_header2annexb_ok]. }
+  destruct (enhanced_too_short m); [intros H; injection H as <- <-; split; [exact Hw|constructor]|].
   set (body := if (video_codec_id m =? codec_id_hevc) && is_enhanced_hevc_nalu m
                then skipn (enhanced_nalu_index m) (rm_payload m) else skipn 5 (rm_payload m)).
   assert (Hbody : bytes_ok body) by (subst body; destruct (_ && _); apply bytes_ok_skipn; exact Hm).
